@@ -466,7 +466,7 @@ def ipb_flags():
 NOT_AVAILABLE = {
     "map": {"removeVal", "appendAll", "removeAll", "appendSelf", "removeSelf"},
     "set": {"removeVal", "setval"},
-    "pool": {"copy", "assign", "assignSelf", "prepend", "appendAll", "removeAll", "appendSelf", "removeSelf"},
+    "pool": {"copy", "assign", "assignSelf", "prepend", "appendAll", "removeAll", "appendSelf", "removeSelf", "notEqual"},
 }
 
 
@@ -588,6 +588,24 @@ def reference(hist):
         elif op == "removeAll":
             ks = {e[0] for e in st.t[o]}
             st.t[t] = [e for e in l if e[0] not in ks]
+        elif op in ("front", "frontC", "back", "backC"):
+            if not l:
+                out.append("bad-op")
+                continue
+            res = f"num {st.shown(l[0] if op.startswith('front') else l[-1])}"
+        elif op in ("iterate", "iterateC", "iterBack", "iterBackC"):
+            ll = l if op.startswith("iterate") else l[::-1]
+            res = "res " + (",".join(f"{k}:{v}" for k, v in ll) or "-")
+        elif op == "entryAt":
+            if a[0] >= len(l):
+                out.append("bad-op")
+                continue
+            res = f"res {l[a[0]][0]}:{l[a[0]][1]}"
+        elif op == "notEqual":
+            if a[0] not in (0, 1):
+                out.append("bad-op")
+                continue
+            res = "res " + ("0" if st.eq(t, a[0]) == "1" else "1")
         elif op in ("assignSelf", "swapSelf"):
             pass                         # a = a, a.swap(a): the table is what it was
         elif op == "appendSelf":
@@ -673,6 +691,9 @@ def gen_history(rng, length, kind=None, mode=None, origins=False):
             op = f"new {t} {rng.choice(CAPS)}"; size[t] = 0
         elif x < 0.98:
             op = f"newdef {t}"; size[t] = 0
+        elif x < 0.985:
+            op = rng.choice([f"front {t}", f"frontC {t}", f"back {t}", f"backC {t}", f"iterate {t}", f"iterateC {t}", f"iterBack {t}",
+                             f"iterBackC {t}", f"entryAt {t} {pos}", f"notEqual {t} {rng.randrange(2)}"])
         elif x < 0.99:
             # the object itself as the argument (removeSelf empties the table: kept rare)
             op = rng.choice(["swapSelf", "assignSelf" if kind != "pool" else "swapSelf",
@@ -723,6 +744,10 @@ def ex_prefix(kind, c0, c1, mode):
     return pre + ["append 0 1 11", "append 1 1 11", "append 1 2 12"]
 
 
+QUERIES = ["frontC 0", "backC 0", "front 1", "back 1", "iterate 0", "iterateC 1", "iterBack 0", "iterBackC 0", "iterBack 1",
+           "entryAt 0 0", "entryAt 0 1", "entryAt 0 2", "entryAt 1 1", "notEqual 0 1", "notEqual 1 0", "notEqual 0 0"]
+
+
 def exhaustive(depth, deep_configs=None):
     """every op sequence of length 1..depth over the container's alphabet, for every configuration
     (`deep_configs`: indices of the configurations enumerated to `depth`, the others to `depth - 1`)"""
@@ -734,7 +759,7 @@ def exhaustive(depth, deep_configs=None):
             dd = depth if deep_configs is None or n in deep_configs else depth - 1
             for d in range(1, dd + 1):
                 for p in itertools.product(al, repeat=d):
-                    hs.append(pre + list(p) + ["wb 0", "wb 1"])
+                    hs.append(pre + list(p) + (QUERIES if d < dd else []) + ["wb 0", "wb 1"])
     return hs
 
 
@@ -745,7 +770,7 @@ def sampled(rng, lengths, n):
         kind = rng.choice(KINDS)
         al = alphabet(kind)
         c0, c1, mode = rng.choice(EX_CONFIGS)
-        hs.append(ex_prefix(kind, c0, c1, mode) + [rng.choice(al) for _ in range(rng.choice(lengths))] + ["wb 0", "wb 1"])
+        hs.append(ex_prefix(kind, c0, c1, mode) + [rng.choice(al) for _ in range(rng.choice(lengths))] + QUERIES + ["wb 0", "wb 1"])
     return hs
 
 
